@@ -53,7 +53,9 @@ func c16Die(facet string, c c16NetCase, h c16Hist, msg string) {
 func c16Quiesce(t veriflib.TB, c c16NetCase, run *Runner, phase string, hist func() c16Hist) Footprint {
 	p := run.P
 	tq := time.Now()
-	defer func() { fmt.Printf("C16/net %s: quiescent point reached and checked in %s\n", phase, time.Since(tq).Round(time.Millisecond)) }()
+	defer func() {
+		fmt.Printf("C16/net %s: quiescent point reached and checked in %s\n", phase, time.Since(tq).Round(time.Millisecond))
+	}()
 	for last, since := run.sig(), time.Now(); p.WARCQueue() > 0 || p.Farm.Active() > 0; time.Sleep(2 * time.Millisecond) {
 		if s := run.sig(); s != last {
 			last, since = s, time.Now()
@@ -137,13 +139,13 @@ func propC16Net(t veriflib.TB, c c16NetCase) {
 	}
 	fmt.Printf("C16/net settings %s\n", veriflib.JSON(c.Settings))
 	if hang := run.Feed(c.Seeds[:n], n); hang != "" {
-		c16Die("C01/net", c, hist(), "seed(s) never reported finished: "+hang)
+		c16Die("C16/net", c, hist(), "the queue never drains, seed(s) were never reported finished: "+hang)
 	}
 	fmt.Printf("C16/net first %d seeds finished after %s\n", n, time.Since(t0).Round(time.Millisecond))
 	a := c16Quiesce(t, c, run, fmt.Sprintf("after N=%d seeds", n), hist)
 	fpN = &a
 	if hang := run.Feed(c.Seeds[n:], len(c.Seeds)-n); hang != "" {
-		c16Die("C01/net", c, hist(), "seed(s) never reported finished: "+hang)
+		c16Die("C16/net", c, hist(), "the queue never drains, seed(s) were never reported finished: "+hang)
 	}
 	fmt.Printf("C16/net all %d seeds finished after %s\n", len(c.Seeds), time.Since(t0).Round(time.Millisecond))
 	b := c16Quiesce(t, c, run, fmt.Sprintf("after N+4N=%d seeds", len(c.Seeds)), hist)
@@ -166,7 +168,7 @@ func propC16Net(t veriflib.TB, c c16NetCase) {
 	}
 	all := p.Farm.Log("")
 	if hang := run.StopWatched(); hang != "" {
-		c16Die("C03/net", c, hist(), hang)
+		c16Die("C16/net", c, hist(), "after the footprint was taken: "+hang)
 	}
 	if b.Goroutines != a.Goroutines {
 		h := hist()
@@ -225,17 +227,17 @@ func propC16Net(t veriflib.TB, c c16NetCase) {
 
 func genC16NetCase(t *rapid.T) c16NetCase {
 	s := Settings{
-		Workers:     rapid.IntRange(2, 6).Draw(t, "workers"),
-		MaxAssets:   rapid.IntRange(1, 8).Draw(t, "maxassets"),
-		MaxRedirect: rapid.IntRange(1, 3).Draw(t, "maxredirect"),
-		MaxRetry:    []int{1, 1, 2}[rapid.IntRange(0, 2).Draw(t, "maxretry")],
-		Seencheck:   rapid.IntRange(0, 3).Draw(t, "seencheck") != 0,
-		WARCPool:    rapid.IntRange(1, 2).Draw(t, "pool"),
-		WARCOnDisk:  rapid.IntRange(0, 3).Draw(t, "ondisk") == 0,
-		LocalDedupe: rapid.IntRange(0, 3).Draw(t, "localdedupe") != 0,
-		DedupeSize:  1024,
-		Hosts:       rapid.IntRange(10, 60).Draw(t, "hosts"),
-		RateLimit:   rapid.IntRange(0, 1).Draw(t, "ratelimit") == 0,
+		Workers:       rapid.IntRange(2, 6).Draw(t, "workers"),
+		MaxAssets:     rapid.IntRange(1, 8).Draw(t, "maxassets"),
+		MaxRedirect:   rapid.IntRange(1, 3).Draw(t, "maxredirect"),
+		MaxRetry:      []int{1, 1, 2}[rapid.IntRange(0, 2).Draw(t, "maxretry")],
+		Seencheck:     rapid.IntRange(0, 3).Draw(t, "seencheck") != 0,
+		WARCPool:      rapid.IntRange(1, 2).Draw(t, "pool"),
+		WARCOnDisk:    rapid.IntRange(0, 3).Draw(t, "ondisk") == 0,
+		LocalDedupe:   rapid.IntRange(0, 3).Draw(t, "localdedupe") != 0,
+		DedupeSize:    1024,
+		Hosts:         rapid.IntRange(10, 60).Draw(t, "hosts"),
+		RateLimit:     rapid.IntRange(0, 1).Draw(t, "ratelimit") == 0,
 		DiscardStatus: [][]int{{429}, nil, {429, 503}}[rapid.IntRange(0, 2).Draw(t, "discard")],
 	}
 	if rapid.IntRange(0, 2).Draw(t, "httptimeout") == 0 {
